@@ -201,6 +201,13 @@ def shrink(case, test_batch, run_one, seconds=40, max_runs=4000, log=None):
                     if tb([c2])[0]:
                         c = c2
                         break
+        # a limit that cannot be raised matters (continuation): the SMALLEST limit makes every page / contributor
+        # count for more rounds, so that fewer of them are needed to show the same thing
+        for k in ("rvlimit", "res_limit"):
+            if 1 < c["opts"].get(k, 50) < 50 and budget.ok():
+                c2 = set_opts(c, **{k: 1})
+                if tb([c2])[0]:
+                    c = c2
         if c["opts"].get("noimages") and budget.ok():
             c2 = set_opts(c, noimages=False)
             if tb([c2])[0]:
